@@ -62,6 +62,7 @@ var validAny = []byte{7, 3}                                   // byte(7)
 var validMsg = []byte{1, 5, 0x0b, 0, 0, 1, 9, 0, 3, 2, 6, 80} // {5: int32... } built below in init
 var c12ops []c12op
 var c12opIndex = map[string]int{}
+var emptyMsg []byte
 
 func e1(err error) (error, bool, []byte, bool)           { return err, true, nil, false }
 func e0() (error, bool, []byte, bool)                    { return nil, false, nil, false }
@@ -80,6 +81,12 @@ func init() {
 		panic(err)
 	}
 	validMsg = append([]byte{}, b...)
+	ew := spec.NewMessageWriter()
+	ebytes, err := ew.Build()
+	if err != nil {
+		panic(err)
+	}
+	emptyMsg = append([]byte{}, ebytes...)
 
 	add := func(name string, f func(x *c12exec) (error, bool, []byte, bool)) {
 		c12opIndex[name] = len(c12ops)
@@ -138,6 +145,7 @@ func init() {
 			add("M.Field(2).Int32", mh(func(m *spec.MessageWriter) (error, bool, []byte, bool) { return e1(m.Field(2).Int32(-5)) }))
 			add("M.Field(1).Any", mh(func(m *spec.MessageWriter) (error, bool, []byte, bool) { return e1(m.Field(1).Any(validAny)) }))
 			add("M.Copy", mh(func(m *spec.MessageWriter) (error, bool, []byte, bool) { return e1(m.Copy(spec.OpenMessage(validMsg))) }))
+			add("M.Copy(empty)", mh(func(m *spec.MessageWriter) (error, bool, []byte, bool) { return e1(m.Copy(spec.OpenMessage(emptyMsg))) }))
 			add("M.HasField(1)", mh(func(m *spec.MessageWriter) (error, bool, []byte, bool) { m.HasField(1); return e0() }))
 		}
 		add("M"+sfx+".Field(2).Message", func(x *c12exec) (error, bool, []byte, bool) {
